@@ -284,6 +284,8 @@ pub fn expand_one(derive: &str, item: &str) -> Exp {
 
 fn mode_expand(args: &[String]) {
     let digest_only = args.iter().any(|a| a == "--digest");
+    // `--items`: print the expansion as a sorted multiset of top-level items
+    let as_items = args.iter().any(|a| a == "--items");
     let stdin = io::stdin();
     let out = io::stdout();
     let mut out = io::BufWriter::new(out.lock());
@@ -305,7 +307,17 @@ fn mode_expand(args: &[String]) {
         };
         let body = match expand_one(derive, &item) {
             Exp::Ok(t) => {
-                if digest_only {
+                if as_items {
+                    use quote::ToTokens;
+                    match syn::parse_str::<syn::File>(&t) {
+                        Ok(f) => {
+                            let mut v: Vec<String> = f.items.iter().map(|i| i.to_token_stream().to_string()).collect();
+                            v.sort();
+                            format!("\"kind\":\"ok\",\"items\":[{}]", v.iter().map(|x| jstr(x)).collect::<Vec<_>>().join(","))
+                        }
+                        Err(e) => format!("\"kind\":\"unparsable\",\"msg\":{},\"tokens\":{}", jstr(&e.to_string()), jstr(&t)),
+                    }
+                } else if digest_only {
                     format!("\"kind\":\"ok\",\"digest\":\"{:016x}:{}\"", fnv(&t), t.len())
                 } else {
                     format!("\"kind\":\"ok\",\"tokens\":{}", jstr(&t))
